@@ -16,6 +16,7 @@ import (
 	"strings"
 
 	"github.com/ohler55/slip"
+	"github.com/ohler55/slip/pkg/bag"
 	"github.com/ohler55/slip/pkg/flavors"
 	"verif/harness/lib"
 )
@@ -388,12 +389,13 @@ func (r *c18Run) runSimplify(cases []*c18Case) {
 		r.c.Ev.Case("simple "+cs.GoVal, v.kind == '[' || v.kind == '{')
 		r.c.Ev.Hist("family", "simplify")
 		r.c.Ev.Hist("go_kind", v.kindName())
-		parts := strings.SplitN(strings.TrimPrefix(replies[i], "ok "), " | ", 2)
-		if len(parts) != 2 {
+		parts := strings.SplitN(strings.TrimPrefix(replies[i], "ok "), " | ", 3)
+		if len(parts) != 3 || len(parts[2]) < 2 {
 			fmt.Println("C18 harness bug: simple reply", replies[i])
 			continue
 		}
 		r.c.Ev.Hist("simplify_guard", map[bool]string{true: "inside", false: "outside"}[strings.HasPrefix(parts[0], "T ")])
+		r.c.Ev.Hist("go_into_bag_guard", map[bool]string{true: "inside", false: "outside"}[strings.HasPrefix(parts[2], "T ")])
 		expL := canonTokenString(parts[0][2:])
 		expG := canonTokenString(parts[1])
 		var obj slip.Object
@@ -417,6 +419,27 @@ func (r *c18Run) runSimplify(cases []*c18Case) {
 		gotG := canonTokenString(strings.Join(encGo(back), " "))
 		r.check(cs, gotG == expG, c18Diff{sig: sig("simplify", "-", kind, "wrong-go-value"), observed: gotG, expected: expG, from: "model:json.simple",
 			relies: []string{"SlipVerif.Json.simplify_roundtrip"}})
+		// the same Lisp object put into a bag (bag.ObjectToBag: make-bag, bag-set, :set)
+		expB := parts[2][2:]
+		var tree any
+		bo := lib.Protect(func() slip.Object {
+			tree = bag.ObjectToBag(r.impl.scope, obj, 0)
+			return nil
+		})
+		gotB := "err " + bo.Class
+		if bo.Ok {
+			gotB = "ok " + canonTokenString(strings.Join(encBagTree(tree), " "))
+		}
+		if strings.HasPrefix(expB, "ok ") {
+			expB = "ok " + canonTokenString(expB[3:])
+		} else {
+			expB = "err " // any condition
+			if !bo.Ok {
+				gotB = expB
+			}
+		}
+		r.check(cs, gotB == expB, c18Diff{sig: sig("go-into-bag", "-", kind, "wrong-bag"), observed: gotB + " " + bo.Msg, expected: expB, from: "model:json.simple",
+			relies: []string{"SlipVerif.Json.go_data_into_bag"}})
 	}
 }
 
